@@ -12,6 +12,8 @@ def make_ctx(sys_, ins, outs, model, **kw):
     c.sys = sys_
     c.sim = sys_.getSimulator()
     core.bystander()            # another system gets its simulator and runs in between: must not disturb this one
+    if c.sim is not None:
+        core.interleave(c.sim)  # ... and is clocked in lockstep, between this system's input writes and its clock edge
     c.in_names = [n for n, _ in ins]
     c.free = [w for _, w in ins]
     c.out_names = [n for n, _ in outs]
